@@ -77,6 +77,119 @@ def _timeouts(tier):
     return (10, 30) if tier == "quick" else (60, 120)
 
 
+# ---- hard wall-clock guard around solver calls ------------------------------------------------------------------------------
+# z3's time limits are polled: some procedures (seen: lp::dioph_eq::substitute_on_q in z3 5.1 on a mutated tree) run for half an
+# hour without looking at the cancel flag.  The discharge loop of a contract therefore runs in a forked child that streams its
+# records back; before every solver call the child announces the budget, and a child that stays silent for longer than that
+# budget can explain is killed: the obligation is `unknown` (backend "killed") and a new child continues with the next one.
+# VERIF_NO_GUARD=1 runs the loop in-process (debugging).
+def _guard_slack(budget_s):
+    return 4 * budget_s + 45  # discharge(): z3 short + cvc5 + z3 + nlsat, each within `budget_s`; generous slack for a busy machine
+
+
+def _guarded_map(n, do_k, killed_rec):
+    """[do_k(k, hb) for k in range(n)]; do_k must return picklable data and call hb(budget_s) before each solver call."""
+    import pickle
+    import select
+    import signal
+    import struct
+
+    if n == 0:
+        return []
+    if os.environ.get("VERIF_NO_GUARD") == "1":
+        return [do_k(k, lambda b: None) for k in range(n)]
+    recs = [None] * n
+    k0 = 0
+    while k0 < n:
+        r, w = os.pipe()
+        pid = os.fork()
+        if pid == 0:  # child
+            try:
+                os.close(r)
+                try:
+                    import ctypes
+
+                    ctypes.CDLL(None).prctl(1, 9)  # PR_SET_PDEATHSIG = SIGKILL
+                except Exception:
+                    pass
+
+                def send(msg):
+                    data = pickle.dumps(msg)
+                    data = struct.pack("<I", len(data)) + data
+                    while data:
+                        m = os.write(w, data)
+                        data = data[m:]
+
+                cur = [k0]
+                try:
+                    for j in range(k0, n):
+                        cur[0] = j
+                        send(("hb", j, 5))
+                        rec = do_k(j, lambda b, _j=j: send(("hb", _j, b)))
+                        send(("rec", j, rec))
+                    send(("done",))
+                except BaseException as e:  # noqa: BLE001 - reported to the parent, which re-raises
+                    send(("err", cur[0], f"{type(e).__name__}: {e}\n{traceback.format_exc()[-1500:]}", isinstance(e, V.OutOfSubset)))
+            finally:
+                os._exit(0)
+        os.close(w)
+        buf = b""
+        cur, budget, t_last = k0, 5, time.time()
+        finished = False
+        killed = None
+        while not finished:
+            # parse complete frames
+            while len(buf) >= 4:
+                (ln,) = struct.unpack("<I", buf[:4])
+                if len(buf) < 4 + ln:
+                    break
+                msg = pickle.loads(buf[4:4 + ln])
+                buf = buf[4 + ln:]
+                t_last = time.time()
+                if msg[0] == "hb":
+                    cur, budget = msg[1], msg[2]
+                elif msg[0] == "rec":
+                    recs[msg[1]] = msg[2]
+                    cur, budget = msg[1] + 1, 5
+                elif msg[0] == "done":
+                    finished = True
+                elif msg[0] == "err":
+                    os.close(r)
+                    os.waitpid(pid, 0)
+                    if msg[3]:
+                        raise V.OutOfSubset(msg[2])
+                    raise RuntimeError(f"in guarded discharge of item {msg[1]}: {msg[2]}")
+            if finished:
+                break
+            remaining = t_last + _guard_slack(budget) - time.time()
+            if remaining <= 0:
+                killed = (cur, budget, time.time() - t_last)
+                break
+            rl, _, _ = select.select([r], [], [], min(remaining, 30))
+            if rl:
+                chunk = os.read(r, 1 << 20)
+                if not chunk:  # child died without "done"
+                    os.close(r)
+                    _, st = os.waitpid(pid, 0)
+                    if all(x is not None for x in recs):
+                        return recs
+                    raise RuntimeError(f"guarded discharge child exited unexpectedly (status {st}) at item {cur}")
+                buf += chunk
+        if killed is not None:
+            try:
+                os.kill(pid, signal.SIGKILL)
+            except ProcessLookupError:
+                pass
+        os.close(r)
+        os.waitpid(pid, 0)
+        if killed is None:
+            break
+        kk, b, dt = killed
+        recs[kk] = killed_rec(kk, f"solver call announced with a {b}s limit was still running after {dt:.0f}s; process killed")
+        k0 = kk + 1
+    return recs
+
+
 def _with_lemmas(ob):
     """Add ground instances of the real-analysis lemma schemas (A4) to an obligation that mentions them."""
     from .reals import lemma_instances
@@ -223,18 +336,24 @@ def _verify_one(args):
         out["inlined"] = sorted(con.inline)
         q, th = _timeouts(tier)
         seen_names = {}
+        names = []
         for ob in obs:
-            ob = _with_lemmas(ob)
             c = seen_names.get(ob.name, 0)
             seen_names[ob.name] = c + 1
-            if c:
-                ob.name = f"{ob.name}#{c + 1}"
+            names.append(f"{ob.name}#{c + 1}" if c else ob.name)
+
+        def do_ob(k, hb):
+            ob = _with_lemmas(obs[k])
+            ob.name = names[k]
+            hb(q)
             r = discharge(ob, q)
             if r["status"] == "unknown":
+                hb(th)
                 r = discharge(ob, th)
             if r["status"] == "unknown" and _BASELINE.get(_base(f"{con.frame_name}::{ob.name}")) == "proved":
                 # an obligation that was proved on the pinned tree and is merely inconclusive now (busy machine?) gets one
                 # generous last attempt before the baseline rule turns it into a VIOLATION
+                hb(4 * th)
                 r = discharge(ob, 4 * th)
                 r["backend"] = r["backend"] + "+retry"
             rec = dict(name=f"{con.frame_name}::{ob.name}", kind=ob.kind, status=r["status"], backend=r["backend"],
@@ -245,32 +364,48 @@ def _verify_one(args):
                 rec["model"] = r.get("model")
                 rec["reason"] = r.get("reason")
                 rec["goal"] = _goal_text(ob.goal, 600)
-                rec["meta"] = {k: str(v)[:300] for k, v in ob.meta.items()}
+                rec["meta"] = {k_: str(v)[:300] for k_, v in ob.meta.items()}
                 rec["smt2"] = to_smt2(ob.hyps, ob.goal)[:20000]
             if r["status"] != "proved" and (con.rt is not None):
+                hb(300)
                 rec["replay"] = _replay(con, r.get("z3model"))
             rec["sample"] = _goal_text(ob.goal, 300, simplify=True)
             rec["n_hyps"] = len(ob.hyps)
-            out["obligations"].append(rec)
+            return json.loads(json.dumps(rec, default=str))
+
+        def killed_ob(k, why):
+            ob = obs[k]
+            return dict(name=f"{con.frame_name}::{names[k]}", kind=ob.kind, status="unknown", backend="killed", time_s=0.0, where=ob.where,
+                        model=None, reason=why, goal=_goal_text(ob.goal, 600), meta={k_: str(v)[:300] for k_, v in ob.meta.items()},
+                        smt2="", sample=_goal_text(ob.goal, 300, simplify=True), n_hyps=len(ob.hyps))
+
+        out["obligations"].extend(_guarded_map(len(obs), do_ob, killed_ob))
         # canary / vacuity: on at least one normally-returning path `False` must NOT be provable,
         # and a deliberately falsified postcondition must fail
         can = {"vacuous_paths": 0, "live_paths": 0, "falsified_post_fails": None}
         reg2 = mod.make_registry()
         obs2, _ = con.verify(reg2, mutate_goal=lambda lab, t: z3.And(t, z3.BoolVal(False)),
                              path_limit=getattr(con, "canary_path_limit", None))  # opt-in: contracts with many paths sample the canary
-        fails = 0
-        posts = 0
-        for ob in obs2:
-            if ob.kind != "post":
-                continue
-            posts += 1
-            if can["live_paths"] >= 2 or posts > 12:
-                continue  # two independent non-vacuous return paths are enough for the canary
-            r = discharge(_with_lemmas(ob), 1, use_cvc5=False, tactics=False)
-            if r["status"] == "proved":
-                can["vacuous_paths"] += 1
-            else:
-                can["live_paths"] += 1
+
+        def do_canary(_k, hb):
+            c2 = dict(vacuous_paths=0, live_paths=0, posts=0)
+            for ob in obs2:
+                if ob.kind != "post":
+                    continue
+                c2["posts"] += 1
+                if c2["live_paths"] >= 2 or c2["posts"] > 12:
+                    continue  # two independent non-vacuous return paths are enough for the canary
+                hb(1)
+                r = discharge(_with_lemmas(ob), 1, use_cvc5=False, tactics=False)
+                if r["status"] == "proved":
+                    c2["vacuous_paths"] += 1
+                else:
+                    c2["live_paths"] += 1
+            return c2
+
+        # a killed canary run means `False` was not proved within the limit: live
+        c2 = _guarded_map(1, do_canary, lambda _k, why: dict(vacuous_paths=0, live_paths=1, posts=sum(1 for o in obs2 if o.kind == "post")))[0]
+        can["vacuous_paths"], can["live_paths"], posts = c2["vacuous_paths"], c2["live_paths"], c2["posts"]
         can["post_obligations"] = posts
         can["falsified_post_fails"] = (can["live_paths"] > 0) if posts else None
         out["canary"] = can
@@ -292,12 +427,18 @@ def _lemma_one(args):
         with ctx:
             items = lem.build(ctx)
         q, th = _timeouts(tier)
-        for lab, hyps, goal in items:
+        items = list(items)
+
+        def do_lemma(k, hb):
+            lab, hyps, goal = items[k]
             ob = _with_lemmas(Obligation(f"lemma:{lem.name}:{lab}", list(hyps), goal, "lemma"))
+            hb(q)
             r = discharge(ob, q)
             if r["status"] == "unknown":
+                hb(th)
                 r = discharge(ob, th)
             if r["status"] == "unknown" and _BASELINE.get(_base(f"lemma::{lem.name}::{lab}")) == "proved":
+                hb(4 * th)
                 r = discharge(ob, 4 * th)
                 r["backend"] = r["backend"] + "+retry"
             rec = dict(name=f"lemma::{lem.name}::{lab}", kind="lemma", status=r["status"], backend=r["backend"],
@@ -309,7 +450,14 @@ def _lemma_one(args):
                 rec["reason"] = r.get("reason")
                 rec["goal"] = str(goal)[:600]
                 rec["smt2"] = to_smt2(ob.hyps, ob.goal)[:20000]
-            out["obligations"].append(rec)
+            return json.loads(json.dumps(rec, default=str))
+
+        def killed_lemma(k, why):
+            lab, hyps, goal = items[k]
+            return dict(name=f"lemma::{lem.name}::{lab}", kind="lemma", status="unknown", backend="killed", time_s=0.0, sample=str(goal)[:300],
+                        model=None, reason=why, goal=str(goal)[:600], smt2="")
+
+        out["obligations"].extend(_guarded_map(len(items), do_lemma, killed_lemma))
     except Exception as e:
         out["error"] = f"checker-fault: {type(e).__name__}: {e}\n{traceback.format_exc()[-1500:]}"
     return out
@@ -538,8 +686,10 @@ def run_property(pid, tier="quick", seed=0, update_baseline=False, jobs=None):
         assumptions=list(getattr(mod, "ASSUMPTIONS", [])),
         wall_s=round(wall, 2), violations=len(violations),
     )
-    os.makedirs(os.path.join(ROOT, "evidence"), exist_ok=True)
-    json.dump(evidence, open(os.path.join(ROOT, "evidence", f"{pid}.json"), "w"), indent=1, default=str)
+    # runs against a scratch tree (bin/try_patch, bin/run_seeds.py) keep their evidence out of /verif/evidence
+    evdir = os.environ.get("VERIF_EVIDENCE_DIR") or os.path.join(ROOT, "evidence")
+    os.makedirs(evdir, exist_ok=True)
+    json.dump(evidence, open(os.path.join(evdir, f"{pid}.json"), "w"), indent=1, default=str)
 
     if update_baseline:
         path = os.path.join(ROOT, "baseline", "obligations.json")
